@@ -4,12 +4,15 @@ go 1.23.1
 
 require (
 	golang.org/x/crypto v0.37.0
+	golang.org/x/net v0.39.0
+	golang.org/x/sys v0.32.0
 	golang.zx2c4.com/wireguard v0.0.0
+	gvisor.dev/gvisor v0.0.0-20250503011706-39ed1f5ac29c
 )
 
 require (
-	golang.org/x/net v0.39.0 // indirect
-	golang.org/x/sys v0.32.0 // indirect
+	github.com/google/btree v1.1.2 // indirect
+	golang.org/x/time v0.7.0 // indirect
 )
 
 replace golang.zx2c4.com/wireguard => /repo
